@@ -19,7 +19,7 @@ T = {
    "Every prefilter variant (memmem, start bytes 1-3, rare bytes 1-3, packed) is exercised by several families; every core position modulo the vector width, every tail length, trigger bytes at every small distance before a match, restricted spans, anchored and case-insensitive searchers, single/iterator/overlapping searches. A prefilter that skips, invents or alters a match anywhere in that space is reported.",
    "oracle = same searcher with prefilter(false); earliest searches compared on existence only (C14 specifies which occurrence only up to 'ends no later')","4, 7"),
  "C06": (E3,"exploration","bounded-exhaustive enumeration (variant x family x core x filler x offset x tail x span) of the packed searchers against the naive leftmost reference",
-   "All 13 algorithm variants available on this CPU (Rabin-Karp, slim Teddy 128/256, fat Teddy, fingerprints 1-4) x both match kinds x 43 colliding families (incl. shortest pattern 15..36 and 64..200 bytes) plus stray templates, 2^16-byte patterns and the construction contract; every offset 0..2V+5 and tail length, haystacks shorter than a vector, matches straddling windows and in the overlapping final window, near misses for the tail compare; find_in on span forms and find_iter.",
+   "All 13 algorithm variants available on this CPU (Rabin-Karp, slim Teddy 128/256, fat Teddy, fingerprints 1-4) x both match kinds x 47 colliding families (incl. shortest pattern 15..36 and 64..200 bytes) plus stray templates, 2^16-byte patterns and the construction contract; every offset 0..2V+5 and tail length, haystacks shorter than a vector, matches straddling windows and in the overlapping final window, near misses for the tail compare; find_in on span forms and find_iter.",
    "occurrences of filler^i.core.filler^j are those of the core shifted (no filler byte occurs in a pattern; lemma cross-checked against the fully naive reference on the small families)","4, 7"),
  "C07": (E2,"model_checking","stateless exhaustive exploration (choice-prefix DFS with replay) of every read-size schedule of the real StreamFindIter, over streams, roll-buffer capacities (hook H1) and automaton kinds; deviation-bounded for long streams",
    "Every way a reader can split every stream up to the full-bound length into reads, for capacities longest pattern+1..8x, is executed on the real code and compared with the in-memory iterator; long streams with a bounded number of short reads exercise several rolls and matches straddling read and roll boundaries.",
